@@ -9,7 +9,7 @@ RULE = ("seeded programs with 1-2 condition expression trees of depth <= 3 over 
         "one time step with 0-2 postponements in between. Non-trivial = some waiter had to "
         "suspend until a later change; distinct = distinct (expression shape, per-actor event "
         "sequence).")
-BUDGET = {"quick": {"cases": 100000, "wall_s": 100, "chunk": 200},
+BUDGET = {"quick": {"cases": 100000, "wall_s": 240, "chunk": 200},
           "thorough": {"cases": 900000, "wall_s": 1500, "chunk": 500}}
 ASSUMPTIONS = ["the evaluator reads atom values through the public API (bool(flag), "
                "tracked.value, supply.levels, task.status, time.now) and combines them with "
